@@ -618,4 +618,29 @@ theorem wellRouted_sound (fs : List Fact) (h : WellRouted fs = true) (f : Fact) 
   · exact absurd (List.contains_iff_mem.mp hkn) hk
   · simpa using hnd
 
+theorem parsersBound_sound (vs : List VmFact) (P : List String) (fs : List Fact)
+    (h : ParsersBound vs P fs = true) (f : Fact) (hf : f ∈ fs) (hk : f.method ∉ Known) :
+    f.delegatesParsing P = false ∧ (∀ c ∈ f.baseParser, c = "PrepareParse") ∧
+    (f.parses ≠ [] → "PrepareParse" ∈ f.selfCalls) ∧
+    (∀ c ∈ f.evalCtx, c = "self.CreateContext" ∨ c = "param") := by
+  simp only [ParsersBound, Bool.and_eq_true, List.all_eq_true] at h
+  have hok := h.1.2 f hf
+  simp only [parserOk, Bool.and_eq_true, Bool.or_eq_true, List.all_eq_true, beq_iff_eq,
+    List.isEmpty_iff, List.contains_iff_mem] at hok
+  obtain ⟨⟨⟨⟨hbp, hpa⟩, hev⟩, _⟩, hdel⟩ := hok
+  refine ⟨?_, hbp, ?_, hev⟩
+  · rcases hdel with hkn | hnd
+    · exact absurd hkn hk
+    · simpa using hnd
+  · intro hne
+    rcases hpa with he | hp
+    · exact absurd he hne
+    · exact hp
+
+theorem closed_contains_direct (vs : List VmFact) (P : List String) (h : closedUnder vs P = true)
+    (f : VmFact) (hf : f ∈ vs) (ho : f.ownParser = true) : f.method ∈ P := by
+  simp only [closedUnder, parsingStep, List.all_eq_true, List.mem_map, List.mem_filter,
+    List.contains_iff_mem] at h
+  exact h f.method ⟨f, ⟨hf, by simp [ho]⟩, rfl⟩
+
 end Proofs.Temp
